@@ -24,7 +24,7 @@ CRATE = "e_treapconc"
 DRIVER = "drv_treapconc"
 DRIVER_MODULE = "Driver.TreapConc"
 PROPS = "RlibModel.Props.C17"
-PROFILES = ["release"]
+PROFILES = ["release", "debug"]   # debug: rlib's cfg(debug_assertions)/debug_assert! code under real threads (reduced case set)
 SHRINK_SEP = None
 RULE = ("cases: `stream` = the real rlib_rand::Rng against the Lean LCG (constants extracted from the source) on boundary and random "
         "seeds; `sched` = every interleaving of small thread programs (the model follows the schedule, the real threads are scheduled "
@@ -38,7 +38,18 @@ RULE = ("cases: `stream` = the real rlib_rand::Rng against the Lean LCG (constan
         "Treap::default, TreapNode::split_by/push/update/collect_into called directly, a third treap of bare keys (trait's default update/push), "
         "and RENDERING (TreePrinter, Debug of Treap and of TreapNode): every rendering is compared with the documented layout computed by hand "
         "from the public fields and with the rendering of the run alone; `render` = as `conc` with all treaps rendered twice after every draw. "
-        "non-trivial = distinct `sched`/`conc` case with at least two threads that both draw, or `stream` case with n >= 2")
+        "Wave 3 (seeded C17_m8, m10, m9) — interference that needs a particular SITUATION rather than a particular schedule, made deterministic by the harness: "
+        "`stack` = every thread owns a TALL treap (a spine of m levels: priorities 1,2,3,.. written through the public field, right spine for even, "
+        "left spine for odd threads) and ALL k threads are held, by a rendezvous inside the item's push callback at the deepest node, at the bottom of the "
+        "same recursive operation at the same instant — merge, split_at, split_by, collect_into in turn (k*m = 4 800 .. 12 800 live frames quick, 128 000 thorough); "
+        "`panic` = every second thread uses an item whose update/push callback panics (caught with catch_unwind inside the thread, or ending the "
+        "thread, which is joined); the other threads do the full operation mix, wait until all faulty neighbours have panicked, and go on with 200 more "
+        "rounds of operations on their own treaps: their results must equal the Vec oracle and the same operations run alone IN A FRESH PROCESS; "
+        "`exit` = the last min(m/2,16) draws of every thread are made from the destructor of a thread-local while the thread exits (registered before "
+        "the thread's first node for even threads, after its last for odd ones): they must continue the thread's stream. "
+        "BOTH BUILD PROFILES: the real-thread cases (conc, tie, render, deep in smaller sizes; stack, panic, exit in full) also run against the debug build "
+        "of rlib (cfg(debug_assertions), debug_assert!, overflow checks). "
+        "non-trivial = distinct `sched`/`conc`-like case with at least two threads that both draw, or `stream` case with n >= 2")
 ASSUMPTIONS = [
     "the hardware/compiler memory model is NOT modelled: the racy discipline is modelled in its most favourable reading (sequentially consistent load and store, no tearing)",
     "'no data race' for thread_local!/Cell, Mutex and AtomicU64::fetch_update rests on Rust's guarantees for these std types (trusted)",
@@ -47,6 +58,11 @@ ASSUMPTIONS = [
     "treap results independent of the priorities drawn: proved for the treap model in C03 (results_independent_of_priorities); here tested against a Vec oracle",
     "the text a rendering must produce (TreePrinter: `- item` per node, `- [None]` per missing child, 3 columns per level; Debug: items in order, each "
     "followed by a blank) is an independent brute-force oracle inside the harness (a walk over the public left/right fields); it is not modelled in Lean",
+    "wave 3: for `stack`/`panic`/`exit` lines the Lean model answers as for `conc` (k threads x m draws: the priority streams); what the threads do with "
+    "their treaps is judged inside the harness by independent oracles — plain Vecs, and the same operations run alone (for `panic`: in a fresh child "
+    "process in which no callback ever panics). Tall treaps with hand-written priorities are valid treaps (heap order holds; C16's height half is about "
+    "rlib's own priorities only), callbacks that panic and are caught are ordinary Rust: both are inside the property's domain — "
+    "the judged threads never share a treap, node or item with the faulty ones",
 ]
 TRUSTED_EXTRA = ["std::thread_local!, std::cell::Cell, std::sync::Mutex, std::sync::atomic::AtomicU64 (data-race freedom of the safe disciplines)",
                  "Miri (nightly) data-race detector, when present (thorough tier)"]
@@ -59,7 +75,8 @@ MANIFEST = {
              "refines these one-step systems (mutual exclusion included); for the unsynchronised load/store discipline a 2-thread schedule "
              "duplicates a draw and is not serialisable. `c17 : Safe RngDiscipline.current` is stated over the generated discipline, so it "
              "stops compiling when the source goes back to `static mut`. Tie: extractor + barrier-released stress threads (every public "
-             "operation of the crate incl. rendering, each thread's results compared with the same operations run alone) against the "
+             "operation of the crate incl. rendering, each thread's results compared with the same operations run alone; all threads held deep inside "
+             "the same recursion at once; neighbours whose item callbacks panic; nodes created in thread-exit destructors; release AND debug build) against the "
              "model and the implementation's own sequential run + Miri."),
     "note": ("Partial: the hardware/compiler memory model is not modelled; data-race freedom of thread_local!/Mutex/atomics is Rust's guarantee "
              "(trusted); the extractor is a syntactic whitelist classifier; real schedules are sampled (stress, Miri), not enumerated."),
@@ -67,6 +84,7 @@ MANIFEST = {
     "design_ref": "DESIGN.md §6 C17",
 }
 
+REAL_THREAD_KINDS = ("conc", "tie", "deep", "render", "stack", "panic", "exit", "sched", "fsched")
 GENERATED = os.path.join(V.LEAN, "RlibModel", "Generated", "RngDiscipline.lean")
 SAFE = ("threadLocal", "mutex", "atomicRmw")
 
@@ -643,7 +661,7 @@ def extract(repo):
 
 
 def harness_args(params, profile):
-    args = ["--disc", params.get("discipline", "unknown")]
+    args = ["--disc", params.get("discipline", "unknown"), "--profile", profile]
     if params.get("constants_complete"):
         args += ["--A", str(params["A"]), "--C", str(params["C"]), "--mixmul", str(params["mixmul"]), "--mixshift", str(params["mixshift"]),
                  "--bits", str(params["priority_bits"]), "--rngseed", str(params["seed"])]
@@ -658,7 +676,7 @@ def nontrivial(case, rec):
         return False
     if ts[0] == "stream":
         return int(ts[-1]) >= 2
-    if ts[0] in ("conc", "tie", "deep", "render"):
+    if ts[0] in REAL_THREAD_KINDS[:-2]:
         return int(ts[2]) >= 2 and int(ts[3]) >= 1
     if ts[0] in ("sched", "fsched") and len(parts) == 3:
         return sum(1 for m in parts[1].split() if int(m) > 0) >= 2
@@ -732,13 +750,13 @@ def stress_failures(ctx):
                 il = fi.readline().rstrip("\n")
                 ml = fm.readline().rstrip("\n")
                 case = case.rstrip("\n")
-                if case.split(" ", 1)[0] not in ("conc", "tie", "deep", "render", "sched", "fsched"):
+                if case.split(" ", 1)[0] not in REAL_THREAD_KINDS:
                     continue
                 rec = {"impl": V.parse_impl(il), "model": V.parse_model(ml)}
                 if rec["impl"] is None or rec["model"] is None:
-                    found.append((case, il or "<missing: harness died>", ml))
+                    found.append((case, il or "<missing: harness died>", ml, pipe.profile))
                 elif V.classify(rec) == "violation":
-                    found.append((case, il, ml))
+                    found.append((case, il, ml, pipe.profile))
     return found
 
 
@@ -757,12 +775,12 @@ def extra(ctx):
     fails = stress_failures(ctx)
     stress_failed = (not pipes) or bool(fails)
     cov["stress_disagreements"] = len(fails)
-    cov["stress_disagreement_examples"] = [{"case": c, "impl": i[:400], "model": m[:200]} for c, i, m in fails[:5]]
-    for c, i, m in fails[:1]:
+    cov["stress_disagreement_examples"] = [{"case": c, "impl": i[:400], "model": m[:200], "profile": pr} for c, i, m, pr in fails[:5]]
+    for c, i, m, pr in fails[:1]:
         findings.append({"class": "violation",
                          "what": "threads building their own treaps at the same time: observed result is not what the same operations give "
                                  "sequentially (observed once on real threads; the case line re-runs the same programs)",
-                         "case": c, "impl": i, "model": m, "profile": "release", "observed_once": True,
+                         "case": c, "impl": i, "model": m, "profile": pr, "observed_once": True,
                          "other_failing_cases": [x[0] for x in fails[1:6]]})
 
     # -- the failing schedule of the model (split disciplines only)
